@@ -149,7 +149,8 @@ func CBORNonTextKeys() []CBORScalar {
 const NumCBORContexts = 6
 
 func CBORContext(ctx int, item []byte) []byte {
-	switch ctx {
+	// (ordered so that a scope of the first three contexts has: top level, a map value followed by a key, an element of an indefinite array)
+	switch []int{0, 3, 2, 1, 4, 5}[ctx] {
 	case 0:
 		return item
 	case 1:
